@@ -272,7 +272,7 @@ class PropertyRun:
         if not confirmed:
             key = o.contract.qn
             if key not in self._searched:
-                n = 150 if self.tier == "quick" else 1500
+                n = 400 if self.tier == "quick" else 4000
                 self._searched[key] = replay_mod.concrete_search(self, o.contract, self.execs[key], n, self.seed)
             f2, d2, i2, ev = self._searched[key]
             self.bounded_search.append(dict(function=key, evaluations=ev, found=bool(f2)))
